@@ -119,6 +119,11 @@ def run(rep):
                 if rec2['ctor'] != exp:
                     rep.finding_or_violation('C04:ctor:%s:%s' % (rec['cls'], rec2['key']), '%s(%s=%s): %s, expected %s' % (rec['cls'], rec2['key'], rec2['val'], rec2['ctor'], exp),
                                              {'class': rec['cls'], 'key': rec2['key'], 'value': rec2['val']})
+                for how in ('ctor_unchecked', 'dot_unchecked'):
+                    ref = rec2['ctor'] if how == 'ctor_unchecked' else rec2.get('dot_checked')
+                    if how in rec2 and ref is not None and rec2[how] != ref:
+                        rep.finding_or_violation('C04:%s:%s:%s' % (how, rec['cls'], rec2['key']), '%s (xsd_check=False) %s=%s by %s: %s, expected %s as on a checked element' % (
+                            rec['cls'], rec2['key'], rec2['val'], how.split('_')[0], rec2[how], ref), {'class': rec['cls'], 'key': rec2['key'], 'value': rec2['val'], 'how': how})
                 if 'parser' in rec2:
                     pexp_ok = rec2['verdict'] == 'ok' or True
                     if rec2['verdict'] == 'ok' and rec2['parser'] != 'ok':
